@@ -162,7 +162,11 @@ func (p *Prog) collectFuncs() {
 	for _, f := range p.Funcs {
 		p.ByKey[p.Key(f)] = f
 	}
-	// address-taken functions: used as a value (not in call position)
+	p.computeAddrTaken()
+}
+
+// computeAddrTaken: the functions used as a value (not in call position).
+func (p *Prog) computeAddrTaken() {
 	p.addrTaken = map[*ssa.Function]bool{}
 	for _, f := range p.Funcs {
 		for _, b := range f.Blocks {
